@@ -471,8 +471,9 @@ register_internal (GIRepository *repository,
 					namespace,
 					(gpointer)&key, &value))
 	g_hash_table_remove (repository->priv->lazy_typelibs, key);
-      else
-	key = build_typelib_key (namespace, source);
+
+      /* The lazy table owns (and has just freed) its key */
+      key = build_typelib_key (namespace, source);
 
       g_hash_table_insert (repository->priv->typelibs, key, (void *)typelib);
     }
